@@ -153,6 +153,61 @@ func runC14(c *Ctx) {
 			}
 		}
 	}
+	// what the frame's src attribute is rendered from: String() of the stored request URL, as it is
+	// (HTML escaping aside) — not a normalised, trimmed or re-joined variant of it
+	{
+		n := 0
+		for _, fn := range p.AllFuncsIn("agent/banner") {
+			EachInstrRaw(fn, func(i ssa.Instruction) {
+				st, ok := i.(*ssa.Store)
+				if !ok {
+					return
+				}
+				_, fld, ok := FieldAddrOf(st.Addr)
+				if !ok || fld != "TargetURL" {
+					return
+				}
+				n++
+				v := st.Val
+				for k := 0; k < 4; k++ {
+					if call, isC := Peel(v).(*ssa.Call); isC {
+						switch CalleeName(call.Common()) {
+						case "html/template.HTMLEscapeString", "text/template.HTMLEscapeString", "html.EscapeString":
+							v = PArgs(&call.Call)[0]
+							continue
+						}
+						if h, isH := calleeFn(call.Call.Value); isH && IsNewHelper(h) {
+							if rs := helperResults(call, 0); len(rs) == 1 {
+								v = rs[0]
+								continue
+							}
+						}
+					}
+					break
+				}
+				okv := false
+				if call := CallResult(v, 0, "(*net/url.URL).String"); call != nil {
+					recv := PArgs(&call.Call)[0]
+					for k := 0; k < 3; k++ {
+						if prm, isP := recv.(*ssa.Parameter); isP && prm.Parent() != fn {
+							if a := helperParamArgIn(prm, TopFunc(fn)); a != nil {
+								recv = a
+								continue
+							}
+						}
+						break
+					}
+					if _, f2, ok2 := FieldLoad(recv); ok2 && f2 == "targetURL" {
+						okv = true
+					}
+				}
+				c.Check("C14.G", "frame:src-is-String-of-the-requested-url", p, st.Pos(), okv, "the frame source is rendered from targetURL.String() (HTML escaping aside)", "the frame source is rendered from "+PathOf(st.Val)+" rather than from targetURL.String(): a trimmed, normalised or re-joined URL (e.g. leading slashes collapsed) is not the URL that was requested")
+			})
+		}
+		if n == 0 {
+			c.Unk("C14.G", "frame:src-is-String-of-the-requested-url", p, 0, "no store to a TargetURL field found in agent/banner")
+		}
+	}
 	wh := c.need(p, "C14.G", "agent/banner.(*bannerResponseWriter).WriteHeader")
 	if wh != nil {
 		fr := c.UniqueCall("C14.G", p, wh, false, bpkg+".isFrameableHTMLResponse")
